@@ -16,7 +16,8 @@ namespace vh
     static std::string jacobian(Tok& t, std::size_t ncell, std::size_t ns);
     static std::string lu(Tok& t, std::size_t kind, std::size_t n, std::size_t blocks);
     static std::string jacobianflat(Tok& t, std::size_t ncell, std::size_t ns);
-    static std::string luflat(Tok& t, std::size_t n, std::size_t blocks);
+    static std::string luflat(Tok& t, std::size_t kind, std::size_t n, std::size_t blocks);
+    static std::string alphaflat(Tok& t, std::size_t n, std::size_t blocks);
     static std::string lumix(Tok& t, std::size_t kind, std::size_t n, std::size_t cscL, std::size_t cscU, std::size_t blocks);
   };
 
